@@ -27,6 +27,7 @@ func init() {
 			{Name: "SliceLit-width-2", File: "ast/ast_gop.go", Old: "func (p *SliceLit) End() token.Pos {\n\treturn p.Rbrack + 1", New: "func (p *SliceLit) End() token.Pos {\n\treturn p.Rbrack + 2", Expect: "end-width/SliceLit.Rbrack"},
 			{Name: "ElemEllipsis-width-1", File: "ast/ast_gop.go", Old: "\treturn p.Ellipsis + 3\n}", New: "\treturn p.Ellipsis + 1\n}", Expect: "end-width/ElemEllipsis.Ellipsis"},
 			{Name: "CallExpr-no-width", File: "ast/ast.go", Old: "func (x *CallExpr) End() token.Pos {\n\tif x.NoParenEnd != token.NoPos {\n\t\treturn x.NoParenEnd\n\t}\n\treturn x.Rparen + 1", New: "func (x *CallExpr) End() token.Pos {\n\tif x.NoParenEnd != token.NoPos {\n\t\treturn x.NoParenEnd\n\t}\n\treturn x.Rparen", Expect: "end-width/CallExpr.Rparen"},
+			{Name: "lambda-last-from-End", File: "parser/parser.go", Old: "\t\t\tLast:        p.pos,\n", New: "\t\t\tLast:        rhs[len(rhs)-1].End() + 1,\n", Expect: "parser-pos-arith/parser.parseLambdaExpr"},
 			{Name: "Pos-offset", File: "ast/ast_gop.go", Old: "func (p *SliceLit) Pos() token.Pos {\n\treturn p.Lbrack", New: "func (p *SliceLit) Pos() token.Pos {\n\treturn p.Lbrack + 1", Expect: "pos-exact/SliceLit"},
 		},
 	})
@@ -242,6 +243,60 @@ func runC17(c *core.Check) {
 				core.Sprintf("the parser stores in %s the position of token %s (spelling %d byte(s) wide) but End() returns that position + %d: the node's span ends %d byte(s) off its last token", key, toks[0], w, k, int64(w)-k))
 			return true
 		})
+	}
+	// ---------- the parser never manufactures a token position from a child's End()
+	nArith := 0
+	for _, fd := range core.AllFuncDecls(ppk) {
+		fdefs := defsOf(pinfo, fd.Body)
+		isEnd := func(e ast.Expr) bool {
+			e = ast.Unparen(e)
+			if call, ok := e.(*ast.CallExpr); ok {
+				if sel, ok := call.Fun.(*ast.SelectorExpr); ok && sel.Sel.Name == "End" && len(call.Args) == 0 {
+					return true
+				}
+			}
+			if o := identObj(pinfo, e); o != nil {
+				ds := fdefs[o]
+				if len(ds) == 0 {
+					return false
+				}
+				for _, d := range ds {
+					if call, ok := ast.Unparen(d).(*ast.CallExpr); ok {
+						if sel, ok := call.Fun.(*ast.SelectorExpr); ok && sel.Sel.Name == "End" && len(call.Args) == 0 {
+							continue
+						}
+					}
+					return false
+				}
+				return true
+			}
+			return false
+		}
+		ast.Inspect(fd.Body, func(n ast.Node) bool {
+			switch x := n.(type) {
+			case *ast.BinaryExpr:
+				if (x.Op == token.ADD || x.Op == token.SUB) && isEnd(x.X) {
+					if tv := pinfo.Types[x.Y]; tv.Value != nil {
+						nArith++
+						c.Bad("parser-pos-arith", core.FuncName(fd), x.Pos(), "the parser derives a position by adding a constant to a child's End(): that is only the position of the next token when nothing (blanks, comments, newlines) lies in between — for other layouts the recorded position, and every span built on it, is off")
+					}
+				}
+			case *ast.IncDecStmt:
+				if isEnd(x.X) {
+					nArith++
+					c.Bad("parser-pos-arith", core.FuncName(fd), x.Pos(), "the parser increments a position taken from a child's End() to reach the next token: wrong whenever blanks or comments lie in between")
+				}
+			case *ast.AssignStmt:
+				if (x.Tok == token.ADD_ASSIGN || x.Tok == token.SUB_ASSIGN) && len(x.Lhs) == 1 && isEnd(x.Lhs[0]) {
+					nArith++
+					c.Bad("parser-pos-arith", core.FuncName(fd), x.Pos(), "the parser adjusts a position taken from a child's End() by a constant")
+				}
+			}
+			return true
+		})
+	}
+	if nArith == 0 {
+		c.Ok("parser-pos-arith", "parser", 0, "no position in package parser is computed as <child>.End() ± constant (positions come from the scanner)")
 	}
 	c.Analysed("end_methods", nEnd)
 	c.Analysed("end_returns_resolved", resolved)
